@@ -34,9 +34,10 @@ CONSTANTS Kinds,        \* which samplers to enumerate
           MinClr        \* clearance_ of the minimum-clearance sampler
 
 VARIABLES kind, A, nd, imp,   \* configuration, fixed per behaviour
-          pc, script, att, cur, tmp, last, j, v1, dist, ret
+          pc, script, att, cur, tmp, last, j, v1, dist, ret,
+          path                \* ghost: names of the actions taken (vacuity is measured on the dump)
 
-vars == <<kind, A, nd, imp, pc, script, att, cur, tmp, last, j, v1, dist, ret>>
+vars == <<kind, A, nd, imp, pc, script, att, cur, tmp, last, j, v1, dist, ret, path>>
 cfgv == <<kind, A, nd, imp>>
 
 UsesClearance(k) == k \in {"maxclear", "minclear"}
@@ -44,6 +45,7 @@ Outcomes == [v : BOOLEAN, c : IF UsesClearance(kind) THEN Clearances ELSE {0}]
 Q == Len(script) + 1                       \* index of the query being made
 Ask(o) == script' = Append(script, o)
 Done(r) == pc' = "done" /\ ret' = r
+Step(name) == path' = Append(path, name)
 
 Init ==
     /\ kind \in Kinds
@@ -51,12 +53,13 @@ Init ==
     /\ nd \in (IF kind = "obstacle" THEN NDSet ELSE {0})
     /\ imp \in (IF kind = "maxclear" THEN ImproveSet ELSE {0})
     /\ pc = "draw" /\ script = <<>> /\ att = 0 /\ cur = 0 /\ tmp = 0 /\ last = 0 /\ j = 0
-    /\ v1 = FALSE /\ dist = 0 /\ ret = FALSE
+    /\ v1 = FALSE /\ dist = 0 /\ ret = FALSE /\ path = <<>>
 
 (* ---- UniformValidStateSampler.cpp: do { sample; valid = isValid; ++attempts }   *)
 (*      while (!valid && attempts < attempts_); return valid;                       *)
 (* MinimumClearanceValidStateSampler.cpp: same, valid &&= dist >= clearance_        *)
 UniformDraw(o) ==
+    /\ Step("UniformDraw")
     /\ kind \in {"uniform", "minclear"} /\ pc = "draw"
     /\ Ask(o) /\ cur' = Q /\ att' = att + 1
     /\ LET valid == o.v /\ (kind = "minclear" => o.c >= MinClr)
@@ -67,10 +70,12 @@ UniformDraw(o) ==
 (*      around it into temp; success iff exactly one of the two is valid; the valid *)
 (*      one is returned                                                             *)
 GaussFirst(o) ==
+    /\ Step("GaussFirst")
     /\ kind = "gaussian" /\ pc = "draw"
     /\ Ask(o) /\ cur' = Q /\ v1' = o.v /\ pc' = "second"
     /\ UNCHANGED <<cfgv, att, tmp, last, j, dist, ret>>
 GaussSecond(o) ==
+    /\ Step("GaussSecond")
     /\ kind = "gaussian" /\ pc = "second"
     /\ Ask(o) /\ tmp' = Q /\ att' = att + 1
     /\ LET result == v1 # o.v
@@ -82,18 +87,21 @@ GaussSecond(o) ==
 (*      midpoint (written into state) valid                                         *)
 BridgeNext(valid) == IF ~valid /\ att + 1 < A THEN pc' = "draw" /\ ret' = ret ELSE Done(valid)
 BridgeFirst(o) ==
+    /\ Step("BridgeFirst")
     /\ kind = "bridge" /\ pc = "draw"
     /\ Ask(o) /\ cur' = Q
     /\ IF o.v THEN att' = att + 1 /\ BridgeNext(FALSE)
        ELSE att' = att /\ pc' = "endpoint" /\ ret' = ret
     /\ UNCHANGED <<cfgv, tmp, last, j, v1, dist>>
 BridgeEndpoint(o) ==
+    /\ Step("BridgeEndpoint")
     /\ kind = "bridge" /\ pc = "endpoint"
     /\ Ask(o) /\ tmp' = Q
     /\ IF o.v THEN att' = att + 1 /\ BridgeNext(FALSE)
        ELSE att' = att /\ pc' = "mid" /\ ret' = ret
     /\ UNCHANGED <<cfgv, cur, last, j, v1, dist>>
 BridgeMid(o) ==
+    /\ Step("BridgeMid")
     /\ kind = "bridge" /\ pc = "mid"
     /\ Ask(o) /\ cur' = Q /\ att' = att + 1      \* interpolate(endpoint, state, 0.5, state)
     /\ BridgeNext(o.v)
@@ -102,6 +110,7 @@ BridgeMid(o) ==
 (* ---- ObstacleBasedValidStateSampler.cpp: find an invalid state, find a valid one *)
 (*      (temp), then keep the last valid state of the motion temp -> state.         *)
 ObstFindInvalid(o) ==
+    /\ Step("ObstFindInvalid")
     /\ kind = "obstacle" /\ pc = "draw"
     /\ Ask(o) /\ cur' = Q
     /\ IF o.v /\ att + 1 < A THEN pc' = "draw" /\ att' = att + 1 /\ ret' = ret
@@ -109,6 +118,7 @@ ObstFindInvalid(o) ==
        ELSE pc' = "findvalid" /\ att' = 0 /\ ret' = ret
     /\ UNCHANGED <<cfgv, tmp, last, j, v1, dist>>
 ObstFindValid(o) ==
+    /\ Step("ObstFindValid")
     /\ kind = "obstacle" /\ pc = "findvalid"
     /\ Ask(o) /\ tmp' = Q
     /\ IF ~o.v /\ att + 1 < A THEN pc' = "findvalid" /\ att' = att + 1 /\ ret' = ret /\ UNCHANGED <<last, j>>
@@ -121,12 +131,14 @@ ObstFindValid(o) ==
 (* end point `state` is asked about again: it was invalid before and the predicate   *)
 (* is a function of the state, so that is not a fresh answer.                        *)
 ObstMotionInterior(o) ==
+    /\ Step("ObstMotionInterior")
     /\ kind = "obstacle" /\ pc = "motion" /\ j < nd
     /\ Ask(o)
     /\ IF o.v THEN last' = Q /\ j' = j + 1 /\ pc' = "motion" /\ ret' = ret /\ cur' = cur
        ELSE cur' = last /\ Done(TRUE) /\ UNCHANGED <<last, j>>
     /\ UNCHANGED <<cfgv, att, tmp, v1, dist>>
 ObstMotionEnd ==
+    /\ Step("ObstMotionEnd")
     /\ kind = "obstacle" /\ pc = "motion" /\ j >= nd
     /\ cur' = last /\ Done(TRUE)
     /\ UNCHANGED <<cfgv, script, att, tmp, last, j, v1, dist>>
@@ -135,6 +147,7 @@ ObstMotionEnd ==
 (*      the clearance), then improveAttempts_ more samples into work_, each taken    *)
 (*      iff valid and strictly clearer                                               *)
 MaxDraw(o) ==
+    /\ Step("MaxDraw")
     /\ kind = "maxclear" /\ pc = "draw"
     /\ Ask(o) /\ cur' = Q /\ dist' = o.c
     /\ IF ~o.v /\ att + 1 < A THEN pc' = "draw" /\ att' = att + 1 /\ ret' = ret
@@ -143,6 +156,7 @@ MaxDraw(o) ==
        ELSE pc' = "improve" /\ att' = 0 /\ ret' = ret
     /\ UNCHANGED <<cfgv, tmp, last, j, v1>>
 MaxImprove(o) ==
+    /\ Step("MaxImprove")
     /\ kind = "maxclear" /\ pc = "improve"
     /\ Ask(o) /\ tmp' = Q /\ att' = att + 1
     /\ IF o.v /\ o.c > dist THEN dist' = o.c /\ cur' = Q ELSE UNCHANGED <<dist, cur>>
@@ -192,5 +206,5 @@ MinClearRule == Finished /\ kind = "minclear" =>
 
 (* ------------------------------------------------------------- scenario export *)
 EmitDone == Finished => PrintT(ToJson([kind |-> kind, A |-> A, nd |-> nd, imp |-> imp, minclr |-> MinClr,
-                                       script |-> script, ret |-> ret, idx |-> cur]))
+                                       script |-> script, ret |-> ret, idx |-> cur, path |-> path]))
 ==============================================================================
